@@ -30,6 +30,8 @@ class ModuleInfo:
         self.tree = ast.parse(source, filename=relpath)
         from .normalise import desugar_with
         from .normalise import inline_new_helpers
+        from .normalise import resugar_locks
+        self.resugared_locks = resugar_locks(self.tree)
         self.cm_classes = desugar_with(self.tree)
         # N1b: `with` over contextlib.contextmanager generators (model wide)
         from .normalise import desugar_cm_generators
